@@ -4,9 +4,16 @@ import os, re
 EXTRACTORS = []   # functions (repo_path) -> (module_name, lean_text, [messages])
 
 
-def extractor(fn):
-    EXTRACTORS.append(fn)
-    return fn
+def extractor(fn=None, soft=False):
+    """Register a translator.  `soft=True`: every item it extracts is exercised at L1 (the Spec's own answer) by the
+    correspondence run of the properties that use it, so when the source no longer has the shape the translator
+    knows, the Gen module is written from tools/extractors/fallback/<Name>.lean (the documented constants) and the
+    tie for those items is the (enlarged) correspondence run alone.  A non-soft translator that fails is a broken tie."""
+    def reg(f):
+        f.soft = soft
+        EXTRACTORS.append(f)
+        return f
+    return reg(fn) if fn is not None else reg
 
 
 def write_if_changed(path, text):
